@@ -317,20 +317,27 @@ MkDeclR(s) ==
       d1 == [d0 EXCEPT !.method = IF s.meth = "DC" THEN MethodDC(N, s.M, dcs[1], dcs[2], GridOf(s.grid, N))
                                   ELSE Method(s.meth, N, s.M, s.intg, GridOf(s.grid, N)),
                        !.obj = <<O1, O3>>,    \* makes every decision variable an active NLP variable (sampler works on the gist)
+                       \* a user-declared quadrature state under the explicit schemes: its dense output between integrator points
+                       !.quads = IF s.meth # "DC" /\ s.rhs \in {"R1", "R2"} THEN <<Q1>> ELSE @,
+                       !.qstates = s.meth # "DC" /\ s.rhs \in {"R1", "R2"},
                        !.reads = (IF Len(d0.params) > 0 THEN <<RRead("C08.c", Plus(Times(P(1), X(1)), U(1)), s.refine)>> ELSE <<>>) \o
                                  (IF s.rhs = "RC" THEN <<RRead("C08.c", Plus(Times(V(2), X(1)), V(1)), s.refine)>> ELSE <<>>) \o
+                                 \* algebraic variables: dense output and sampler (DAE, DirectCollocation)
+                                 (IF s.rhs = "R6" THEN <<RRead("C08.c", Plus(Z(1), X(1)), s.refine), SRead("C08.i", Plus(Times(Z(1), X(1)), Tm), QueryTimes(N, s.M))>> ELSE <<>>) \o
+                                 (IF s.meth # "DC" /\ s.rhs \in {"R1", "R2"} THEN <<RRead("C08.c", Plus(QS(1), X(1)), s.refine)>> ELSE <<>>) \o
                                  <<RRead("C08.c", X(1), s.refine), RRead("C08.c", ex, s.refine), RRead("C08.c", Tm, s.refine),
                                    RRead("C08.c", Times(X(1), Minus(Tm, T0)), s.refine),      \* time since the start of the horizon
 
                                    Read("C08.a", "sample", X(1), "integrator"), Read("C08.a", "sample", X(1), "control"),
                                    SRead("C08.i", X(1), QueryTimes(N, s.M)), SRead("C08.i", Plus(Sq(X(1)), Times(U(1), Tm)), QueryTimes(N, s.M))>>]
   IN WithHorizon(d1, s.hz, IF s.seed % 2 = 0 THEN One ELSE Q(-1, 2), TBase(s.grid, N))
-SpaceR == {s \in [rhs : {"R1", "R2", "R3", "R4", "R5", "RA", "RC"}, meth : {"MS", "SS", "DC"}, intg : {"rk", "expl_euler", "radau1", "radau2", "legendre1"},
+SpaceR == {s \in [rhs : {"R1", "R2", "R3", "R4", "R5", "R6", "RA", "RC"}, meth : {"MS", "SS", "DC"}, intg : {"rk", "expl_euler", "radau1", "radau2", "legendre1"},
                   N : 1..(IF Thorough THEN 3 ELSE 2), M : 1..2, grid : {"uni", "geo", "fun"}, hz : {"num", "fT"}, refine : 1..(IF Thorough THEN 7 ELSE 4),
                   seed : {Seed}, cons : {<<>>}, obj : {<<>>}] :
               /\ (s.meth = "DC" <=> s.intg \in {"radau1", "radau2", "legendre1"})
               /\ (s.rhs = "R5" => s.N * s.M <= 2 \/ s.intg = "expl_euler")
-              /\ (s.rhs = "R3" => s.meth # "DC" \/ TRUE)}
+              /\ (s.rhs = "R3" => s.meth # "DC" \/ TRUE)
+              /\ (s.rhs = "R6" => s.meth = "DC")}
 
 (***************************************************************************)
 (* C15 family: grid='inf' constraints.                                     *)
